@@ -71,11 +71,11 @@ CLAIMS = {
         "text": "Theorems over the Vars model (24, closed under the global context): single-quoted and $-free words pass through unchanged; a sole unquoted variable yields the "
                 "referenced words verbatim, any other mixture exactly one double-quoted word; the lookup finds only strictly earlier definitions, the innermost scope first, the last "
                 "earlier candidate within a scope, dotted paths descend, root-anchored paths start at the root; the environment is never consulted when a definition is found; the result "
-                "depends only on the part of the document before the referencing definition (truncation theorem, for document-ordered trees - evaluated on every parsed tree of the "
-                "stream); resolution always terminates; Undefined-variable and syntax errors carry the line of the word. One refutation remains (open finding): the id-less prefix scope "
+                "depends only on the part of the document before the referencing definition (truncation theorem, for document-ordered trees - and every document the parser model accepts is document-ordered: "
+                "C12_parsed_documents_are_ordered); resolution always terminates; Undefined-variable and syntax errors carry the line of the word. One refutation remains (open finding): the id-less prefix scope "
                 "of a LATER dotted definition is visible.",
         "note": "Trusted: Coq kernel, extraction, driver, harness, hand-written model of variable_substitution_proxy, resolve_variables, lexical_get; os.environ is an oracle table; "
-                "doc_ordered is checked per tree, not proved of the parser; tmp marks and alias paths not modelled.",
+                "tmp marks and alias paths not modelled.",
     },
     "C13": {
         "text": "Theorems over the Include model (8, closed under the global context): includes = tree-level inlining (sound and complete against an inductive expansion spec; iff when "
@@ -131,21 +131,22 @@ CLAIMS = {
                 "the integer key 100*score-level, exact for levels 0..99; outside the entry answers 'unmodelled'. Argument parsing, re-rendering and fetch are not in this model.",
     },
     "C01": {
-        "text": "Theorems (closed under the global context): WHOLE TREES at attributes level 0, any print width - for every tree of the shape scope.adopt builds (dtree_ok: identifier "
-                "names, dotted-name prefix scopes, value words in words_ok, no deprecated/template/include objects; evaluated on every parsed tree of the stream) the printed text "
-                "parses to a tree with the same names, nesting, order, disabled marks, merge flags, word texts and quote styles, and printing the re-parsed tree is byte-identical; "
-                "level 3 for trees whose attributes are the bool/int ones; value words of a definition survive print -> parse at every width (continuation backslashes incl.); quoted "
-                "words read back exactly; the parser never yields a lone backslash word. PARTIAL: string-valued attributes (wrapped help), .type/.call, levels 1/2 views, deprecated "
-                "definitions are decided on every run by running parse -> print -> parse -> print in freephil and in the extracted parser/printer model on rich generated documents "
-                "and by the oracle comparing the trees under the level's view.",
+        "text": "Theorems (closed under the global context): for EVERY text the parser model accepts that has no deprecated definition and no include line, parse -> print at attributes "
+                "level 0 (any width) -> parse gives the same names, nesting, order, disabled marks, merge flags, word texts and quote styles, and the second print is byte-identical "
+                "(C01_parse_print_parse_level0 via C01_parsed_trees_in_domain + C01_tree_level0 + C01_text_fixpoint_level0); level 3 for trees whose attributes are the bool/int ones; "
+                "value words of a definition survive print -> parse at every width (continuation backslashes incl.); quoted words read back exactly; the parser never yields a lone "
+                "backslash word. PARTIAL: string-valued attributes (wrapped help), .type/.call, levels 1/2 views and deprecated definitions are decided on every run by running parse -> "
+                "print -> parse -> print in freephil and in the extracted parser/printer model on rich generated documents and by the oracle comparing the trees under the level's view.",
         "note": "Trusted: Coq kernel, extraction, driver, harness, hand-written models of tokenizer.py, parser.py, the printer in common.py, str(converter); textwrap.wrap "
                 "modelled for the options the code passes; float converters carried as printed text.",
     },
     "C19": {
-        "text": "Theorems over the printer model for all trees/widths/prefixes: printing with expert level k is byte-identical to printing the pruned tree without "
-                "filter (for trees as the parser builds them: side condition wf_show, evaluated on every parsed tree of the stream); a negative level shows everything; "
-                "attributes level 0 prints no attribute, visibility is monotone in the level, level 1 shows only help/alias, level 2 only set attributes. PARTIAL for "
-                "the re-parse clauses and the prefix clause, which are decided by correspondence (text byte for byte) + oracle on every run.",
+        "text": "Theorems over the printer (and parser) model for all trees/widths/prefixes (closed under the global context): printing with expert level k is byte-identical to printing "
+                "the pruned tree without filter (side condition wf_show, which every parsed document with numeric expert levels satisfies: C19_parsed_trees_are_wf); a negative level "
+                "shows everything; attributes level 0 prints no attribute, visibility is monotone in the level, level 1 shows only help/alias, level 2 only set attributes; a prefix without "
+                "newline is prepended to every printer line and changes nothing else; the filtered text parses to exactly the allowed sub-tree at level 0 (every tree of the parser's "
+                "shape, no hypothesis on the levels) and at level 3 (bool/int attributes); the trees re-parsed from levels 0 and 3 agree once attributes are ignored. PARTIAL: levels 1/2 "
+                "and string-valued / .type / .call attributes in the re-parse clauses are decided by correspondence (text byte for byte) + oracle on every run.",
         "note": "Trusted as C01. The oracle's view() is the property text made executable.",
     },
     "C02": {
@@ -172,7 +173,10 @@ CLAIMS = {
                 "For parse and the argument interpreter the model's outcome class (Ok/UErr/Crash) is compared with the implementation's exception class on token "
                 "soup and mutated documents, and for every numeric/bool converter on value texts incl. inf, nan, 1e999, huge integers, empty brackets, stray operators; "
                 "any non-RuntimeError/Sorry exception is a violation unless listed in known_findings.json (F18 .call, F21 digit limit). Theorems: tokenizer never crashes; "
-                "parse never ends in an internal error unless an oracle function (.type/.call construction, eval-based integer) does, and always returns.",
+                "parse never ends in an internal error unless an oracle function (.type/.call construction, eval-based integer) does, and always returns; fetch: its possible internal "
+                "errors are exactly characterised and none occurs for a crash-free canon oracle, choice masters listing their alternatives and parsed sources; from_words / as_words of "
+                "every numeric/bool converter with any constructor arguments: no internal error for non-empty word lists and a total eval oracle (resp. well-typed values); extract: no "
+                "internal error on trees satisfying extract_wf (evaluated on every fetch result of the streams), crash kinds characterised.",
         "note": "Trusted as C02. Converter value texts: C10 stream. eval bombs are not generated (a value like 9**9**9**9 does not return: limitation).",
     },
     "C03": {
